@@ -408,7 +408,17 @@ pub fn inject(rng: &mut Rng, mut idl: Idl, class: &str) -> Idl {
 /// texts the parser should reject (mutations of a valid text); the real parser decides
 pub fn mutate_text(rng: &mut Rng, text: &str) -> (String, &'static str) {
     let chars: Vec<char> = text.chars().collect();
-    match rng.below(15) {
+    match rng.below(18) {
+        15 | 16 | 17 => {
+            // one character at either end that Unicode calls white space but the grammar does not (VT, FF, NEL), or that
+            // neither does (ZWSP), or that only the grammar does (BOM, NBSP, U+180E: such texts stay accepted)
+            let c = *rng.pick(&['\u{b}', '\u{c}', '\u{85}', '\u{200b}', '\u{b}', '\u{85}', '\u{feff}', '\u{a0}', '\u{180e}', '\u{1c}']);
+            match rng.below(3) {
+                0 => (format!("{}{}", c, text), "edge-whitespace"),
+                1 => (format!("{}{}", text, c), "edge-whitespace"),
+                _ => (format!("{}{}\n", text, c), "edge-whitespace"),
+            }
+        }
         0 => (String::new(), "empty"),
         1 => (text.replacen("interface ", "interfac ", 1), "bad-keyword"),
         2 => {
